@@ -214,18 +214,22 @@ func runC18(c *Ctx) {
 		f := brk + m + "$1"
 		c.Guard(r4, f, "meta event delivery", `^call:router\.\(\*broker\)\.trySend\(`, 2, clause("not echoed to the causing session", F(`^\(\^subSessID == range\(%metaSub\.subscribers\)#k\.ID\)$`)))
 	}
-	c.Fields(r4, brk+"syncPubSubMeta$1", "subscription meta EVENT", "wamp.Event", nil, map[string]string{"Publication": `^\^pubID$`, "Subscription": `^%metaSub\.id$`}, 2)
+	if c.P.Func(brk+"syncPubSubMeta$1$1") != nil { // the constructor stayed a closure (it is passed on as a value)
+		c.Fields(r4, brk+"syncPubSubMeta$1$1", "subscription meta EVENT", "wamp.Event", nil, map[string]string{"Publication": `^\^pubID$`, "Subscription": `^\^metaSub\.id$`}, 1)
+	} else {
+		c.Fields(r4, brk+"syncPubSubMeta$1", "subscription meta EVENT", "wamp.Event", nil, map[string]string{"Publication": `^\^pubID$`, "Subscription": `^%metaSub\.id$`}, 2)
+	}
 	// dealer
 	sr := dlr + "syncRegister"
 	topic := func(t string) string { return `^store:new\(wamp\.Publish\)\.&Topic="wamp\.registration\.` + t + `"$` }
 	regPhi := `phi\(%d\.pfxProcRegMap\[%msg\.Procedure\]\|%d\.procRegMap\[%msg\.Procedure\]\|%d\.wcProcRegMap\[%msg\.Procedure\]\)`
 	c.Guard(r4, sr, "on_create", topic("on_create"), 1, clause("registration created by this request", T(`^\((`+regPhi+`|%d\.(pfxP|wcP|p)rocRegMap\[%msg\.Procedure\]) == nil\)$`)),
-		clause("not a wamp.* procedure", F(`^%wampURI$`)), clause("meta peer set", F(`^\(%d\.metaPeer == nil\)$`)))
+		clause("not a wamp.* procedure", F(`^%wampURI$`), F(`^call:strings\.HasPrefix\(%msg\.Procedure, "wamp\."\)$`)), clause("meta peer set", F(`^\(%d\.metaPeer == nil\)$`)))
 	c.Reach(r4, sr, "on_create precedes on_register", ReachSpec{From: topic("on_register"), Target: topic("on_create"), Want: false})
 	c.Reach(r4, sr, "no meta event on a refusal path", ReachSpec{From: dTrySendTo + `%callee, new\(wamp\.Error\)\)$`, Target: `^store:new\(wamp\.Publish\)`, Want: false})
 	c.Reach(r4, sr, "on_register only after REGISTERED was sent", ReachSpec{Stop: dTrySendTo + `%callee, new\(wamp\.Registered\)\)$`, Target: topic("on_register"), Want: false})
 	c.Reach(r4, sr, "a registration of a client procedure is announced", ReachSpec{From: dTrySendTo + `%callee, new\(wamp\.Registered\)\)$`, Stop: topic("on_register"),
-		Cut: []ir.Clause{clause("wamp.* procedure or no meta peer", T(`^%wampURI$`), T(`^\(%d\.metaPeer == nil\)$`))}, Target: "EXIT", Want: false})
+		Cut: []ir.Clause{clause("wamp.* procedure or no meta peer", T(`^%wampURI$`), T(`^call:strings\.HasPrefix\(%msg\.Procedure, "wamp\."\)$`), T(`^\(%d\.metaPeer == nil\)$`))}, Target: "EXIT", Want: false})
 	sun := dlr + "syncUnregister"
 	c.Reach(r4, sun, "on_unregister precedes on_delete", ReachSpec{Stop: topic("on_unregister"), Target: topic("on_delete"), Want: false})
 	c.Guard(r4, sun, "on_delete", topic("on_delete"), 1, clause("last callee left", T(`^call:router\.\(\*dealer\)\.syncDelCalleeReg\(%d, %callee, %msg\.Registration\)#0$`)))
